@@ -98,7 +98,7 @@ def gen_case(rng):
         stores = ['t1'] + (['t2'] if n_params == 2 else []) + stores       # ALL parameters
     steps = ['fill']
     for _ in range(rng.randint(1, 4)):
-        steps.append(rng.choice(['rerun', 'extend', 'add-store', 'remove-store', 'replace-summary', 'replace-distance', 'reopen', 'clear']))
+        steps.append(rng.choice(['rerun', 'extend', 'add-store', 'remove-store', 'replace-summary', 'replace-distance', 'reopen', 'clear', 'save', 'save']))
     return dict(n_params=n_params, hier=rng.random() < .5, n_sum=n_sum, stores=stores, disk=rng.random() < .4,
                 b=rng.randint(1, 5), seed=rng.randrange(2**31), steps=steps, fill=rng.randint(1, 4))
 
@@ -144,7 +144,7 @@ def one(ctx, case, tmp, reqs, meta):
     if case['disk']:
         pool = elfi.ArrayPool(list(case['stores']), name='p%d' % ctx.evaluations, prefix=tmp)
     else:
-        pool = elfi.OutputPool(list(case['stores']))
+        pool = elfi.OutputPool(list(case['stores']), name='o%d' % ctx.evaluations, prefix=tmp)
     ctx.case(case, any(s != 'fill' for s in case['steps']))
     elfi.Rejection(m['d'], batch_size=case['b'], seed=case['seed'], pool=pool)          # sets the pool's context; nothing stored yet
     if not check_refusal(ctx, m, pool, case, 'empty pool with a context'):
@@ -190,6 +190,15 @@ def one(ctx, case, tmp, reqs, meta):
         elif step == 'clear':
             pool.clear()
             if not check_refusal(ctx, m, pool, case, 'pool cleared'):
+                return
+        elif step == 'save':
+            # save() writes the pool out; the SAME pool object stays in use afterwards and must still hold what it held
+            holds = lambda: {n: ([i for i in range(64) if i in pool.stores[n]] if pool.stores[n] is not None else None) for n in pool.stores}
+            h0 = holds()
+            pool.save()
+            h1 = holds()
+            if h0 != h1:
+                ctx.fail_input(where, 'pool.save() changed what the live pool holds: before %s, after %s' % (h0, h1), h0, h1)
                 return
         elif step == 'reopen' and case['disk']:
             pool.save()
